@@ -165,6 +165,14 @@ def _p_norm(p: float, critical_pairs: list = []):
             if (y0 < 0 and y1 > 0) or (y0 > 0 and y1 < 0):
                 result += ev_x1 + ev_x0
             # segment does not cross the x-axis
+            elif np.abs(np.abs(y1) - np.abs(y0)) <= 1e-4 * max(np.abs(y0), np.abs(y1)):
+                # nearly horizontal: ev_x1 - ev_x0 cancels catastrophically (a
+                # slope of 1e-16 from rounding makes the result meaningless);
+                # Simpson's rule is exact to rounding for such a short range
+                mid = 0.5 * (np.abs(y0) + np.abs(y1))
+                result += (
+                    (np.abs(y0) ** p + 4 * mid ** p + np.abs(y1) ** p) / 6.0 * (x1 - x0)
+                )
             else:
                 result += np.abs(ev_x1 - ev_x0)
     return (result) ** (1.0 / p)
